@@ -25,16 +25,14 @@ def _sector(lab):
 
 
 def run(chk):
-    # ---- B1: design -------------------------------------------------------------------
-    r = chk.tlc("FlavorsMC", "FlavorsMC_C31.cfg", label="design: intended unified sector map, nf 3-6 x {QCD,QED}")
-    if r.violated:
-        raise MachineryError(f"Flavors.tla: intended design violates {r.violated}: {r.counterexample()[:1500]}")
+    # ---- B1: design (in the background) ----------------------------------------------------
+    design = F.Design(chk)
+    design.run("FlavorsMC_C31.cfg", "design: intended unified sector map, nf 3-6 x {QCD,QED}")
     # vacuity guards / faithful design: each must be refuted
-    rf = chk.tlc("FlavorsMC", "FlavorsMC_C31_fallback.cfg", expect_violation="InvC31Available",
-                 label="switch: unified sectors looked up in the QCD map (the code as it stands)")
-    chk.tlc("FlavorsMC", "FlavorsMC_C31_tablecut.cfg", expect_violation="InvC31Sector",
-            label="switch: Sdelta/Vdelta rows cut from the nf=6 table instead of orthogonalised")
-    chk.note("faithful_design_counterexample", rf.counterexample()[:400])
+    design.run("FlavorsMC_C31_fallback.cfg", "switch: unified sectors looked up in the QCD map (the code as it stands)",
+               expect_violation="InvC31Available", workers=2)
+    design.run("FlavorsMC_C31_tablecut.cfg", "switch: Sdelta/Vdelta rows cut from the nf=6 table instead of orthogonalised",
+               expect_violation="InvC31Sector", workers=2)
 
     # ---- B3: the implementation's own numbers -------------------------------------------
     recs = F.c31_tables() + F.c31_projectors()
@@ -99,6 +97,11 @@ def run(chk):
         )
     chk.note("sector_calls", sum(1 for x in recs if x["ev"] == "proj"))
     chk.note("sector_calls_raising", sum(1 for x in recs if x["ev"] == "proj" and x["err"]))
+
+    r, rf, _ = design.join()
+    if r.violated:
+        raise MachineryError(f"Flavors.tla: intended design violates {r.violated}: {r.counterexample()[:1500]}")
+    chk.note("faithful_design_counterexample", rf.counterexample()[:400])
 
     # ---- binding demonstration: corrupted records must be rejected ------------------------
     good = next(x for x in recs if x["ev"] == "proj" and not x["err"] and tuple(x["lab"]) == (100, 21) and x["nf"] == 4)
